@@ -32,6 +32,7 @@ def main():
         if cond.setup:
             cond.setup()
         eng = smt.Engine(timeout_ms=int(cond.info.get("query_timeout_ms", 30000)))
+        eng.cross_check = tier == "thorough" or os.environ.get("VERIF_CVC5") == "1"
         # measured list of pyrepseq functions executed: a profile hook restricted to REPO files
         encoded = set()
         root = os.path.realpath(os.path.join(REPO, "pyrepseq")) + os.sep
@@ -77,6 +78,12 @@ def main():
         res["queries"], res["solver_s"] = eng.queries, round(eng.solver_s, 3)
         res["functions_encoded"] = sorted(encoded)
         res["axioms"] = eng.axiom_notes
+        if eng.cross:
+            agree = sum(1 for a, b in eng.cross if a == b)
+            res["cvc5_cross_check"] = {"queries": len(eng.cross), "agree": agree,
+                                       "cvc5_inconclusive": sum(1 for a, b in eng.cross if b not in ("sat", "unsat")),
+                                       "disagree": sum(1 for a, b in eng.cross if b in ("sat", "unsat") and a != b)}
+            res["messages"].append(f"cvc5 cross-check: {agree}/{len(eng.cross)} final queries agree")
         res["messages"].append(f"{holds} paths: all queries unsat" if status == "CONFIRMED" else "")
     except BaseException as e:  # noqa
         res["status"] = "ERROR"
